@@ -99,6 +99,8 @@ DropRet(s, r) ==
      THEN [s1 EXCEPT !.deferQ = Append(@, [Clo("retcall", 0, rt.aid, rt.kind = "toprep") EXCEPT !.rid = r])]
      ELSE IF rt.kind = "someto"
      THEN Emit(s1, [e |-> "argdrop", rid |-> r])     \* nothing is queued for None: the closure goes now
+     ELSE IF rt.kind = "retfail" /\ s.alive
+     THEN [s1 EXCEPT !.deferQ = Append(@, [Clo("failcall", 0, rt.aid, FALSE) EXCEPT !.code = "rf" \o ToString(r)])]
      ELSE s1
 
 \* the Drop handler of a closure's captures: defers another closure
@@ -222,6 +224,7 @@ Effects(s, cx) ==
   \cup (IF E("mkret") /\ s.nextRid <= MaxRets
         THEN {[op |-> "mkret", kind |-> "plain", aid |-> 0]}
              \cup {[op |-> "mkret", kind |-> kd, aid |-> a] : kd \in {"to", "someto", "toprep"}, a \in ActorsOf(s)}
+             \cup (IF cx.k = "meth" THEN {[op |-> "mkret", kind |-> "retfail", aid |-> cx.aid]} ELSE {})
         ELSE {})
   \cup (IF E("ret") THEN {[op |-> "ret", rid |-> r] : r \in TopRets(s)} ELSE {})
   \cup (IF E("retdrop") THEN {[op |-> "retdrop", rid |-> r] : r \in TopRets(s)} ELSE {})
@@ -372,6 +375,9 @@ ApplyEff(s, cx, f) ==
              v == 10 * f.rid
              s1 == Emit([s EXCEPT !.rets[f.rid].loc = "gone"], [e |-> "ret", rid |-> f.rid, val |-> v])
              s2 == IF rt.kind = "plain" THEN Emit(s1, [e |-> "retcb", rid |-> f.rid, has |-> TRUE, val |-> v])
+                   ELSE IF rt.kind = "retfail"
+                   THEN (IF s.alive THEN [s1 EXCEPT !.deferQ = Append(@, [Clo("failcall", 0, rt.aid, FALSE) EXCEPT !.code = "rf" \o ToString(f.rid)])]
+                         ELSE s1)
                    ELSE IF s.alive
                    THEN [s1 EXCEPT !.deferQ = Append(@, [Clo("retcall", 0, rt.aid, rt.kind = "toprep") EXCEPT !.rid = f.rid, !.has = TRUE, !.val = v])]
                    ELSE s1
